@@ -543,12 +543,13 @@ impl TypeChecker {
 
             S::Unreachable(_) => Ok(None),
 
-            S::Blob { .. } | S::Enum { .. } | S::ExternalDefinition { .. } => {
-                unreachable!(
-                    "Illegal inner statement at {:?}! Parser should have caught this",
-                    span
-                )
-            }
+            // The parser accepts these anywhere a statement is allowed.
+            S::Blob { .. } | S::Enum { .. } | S::ExternalDefinition { .. } => err_type_error!(
+                self,
+                span,
+                TypeError::Exotic,
+                "Types and externals can only be declared at the top level of a file"
+            ),
         }
     }
 
